@@ -253,12 +253,57 @@ pub fn run(ctx: &Ctx) -> CheckOutput {
 			}
 		}
 	}
+	// --- a bursty producer on stdin: the stream arrives in two packets, split at every offset; the
+	// second packet is written only after xt consumed the first and is waiting for more
+	let streams: Vec<(&str, &[u8])> = vec![
+		("yaml-multi", b"a: 1\n---\nb: 2\n---\nc: 3\n"),
+		("json-multi", b"{\"a\":1}\n[2,3]\n\"four\"\n"),
+		("msgpack-multi", b"\x81\xa1a\x01\x92\x02\x03\xa4four"),
+		("toml", b"[t]\nx = 1\n# c\ny = \"a: b\"\n"),
+	];
+	let mut pjobs: Vec<(usize, usize, Option<F>, F)> = vec![];
+	for (si, (_, data)) in streams.iter().enumerate() {
+		for cut in 1..data.len() {
+			for fopt in [None, Some([F::Yaml, F::Json, F::Msgpack, F::Toml][si])] {
+				for to in [F::Json, F::Yaml] {
+					pjobs.push((si, cut, fopt, to));
+				}
+			}
+		}
+	}
+	let pdir = multi.path().to_path_buf();
+	let tp = par_fold(&pjobs, Tally::default, |t, idx, &(si, cut, fopt, to)| {
+		let data = streams[si].1;
+		let mut args: Vec<String> = vec![format!("-t{}", to.letter())];
+		if let Some(f) = fopt {
+			args.push(format!("-f{}", f.letter()));
+		}
+		let argv: Vec<&str> = args.iter().map(String::as_str).collect();
+		let mut sp = Spawn::new(&pdir, &argv);
+		sp.stdin = Stdin::Packets(vec![data[..cut].to_vec(), data[cut..].to_vec()]);
+		sp.release = idx % 2 == 0;
+		sp.timeout = std::time::Duration::from_secs(20);
+		let o = proc::run(&sp);
+		t.evaluations += 1;
+		t.count("supply:StdinPackets");
+		let lib = run_reader(ChunkReader::new(data, 0), fopt, to);
+		let good = match &o.exit {
+			Exit::Code(0) => lib.ok && o.stdout == lib.out,
+			Exit::Code(1) => !lib.ok,
+			_ => false,
+		};
+		if !good {
+			t.bad("packetised-stdin-disagrees-with-library", json!({"kind": "packets", "stream": streams[si].0, "cut": cut, "f": fopt.map(F::name), "to": to.name()}),
+				format!("stdin {} delivered as {} + {} (-f {:?} -t {}): {} | library {}", streams[si].0, show(&data[..cut]), show(&data[cut..]), fopt.map(F::name), to.name(), o.brief(), lib.brief()));
+		}
+	});
+	tally.merge(Tally::merge_all(tp));
 	let req = |k: &str| (k.to_string(), *tally.counters.get(k).unwrap_or(&0));
-	let required = vec![req("supply:File"), req("supply:Fifo"), req("supply:StdinImplicit"), req("supply:StdinDash"), req("f:absent"), req("f:yaml"), req("multi-input:lists")];
+	let required = vec![req("supply:StdinPackets"), req("supply:File"), req("supply:Fifo"), req("supply:StdinImplicit"), req("supply:StdinDash"), req("f:absent"), req("f:yaml"), req("multi-input:lists")];
 	CheckOutput {
 		level: "exploration",
 		tally,
-		rule: format!("full product of -f in {{absent, json, msgpack, toml, yaml}} x {} file names (every letter-casing of json, yaml, yml, toml{}; multi-dot names, hidden '.json', trailing dot, no extension, unknown and misleading extensions) x {} contents (each format, valid in two formats, multi-document, invalid, empty) x supply in {{regular file (mmap), FIFO, implicit stdin, '-'}} x targets, through the real binary (debug and release alternating); expected source = -f, else the (case-insensitive, last) extension, else detection; stdout and exit status must equal the library's result for that source on the same bytes (slice for regular files, reader otherwise). Plus input lists with '-' first/middle/last, '-' twice, a directory, paths below a directory with a misleading name, compared with one in-process Translator.", names.len(), if thorough { " and msgpack" } else { " and 6 casings of msgpack" }, ncontents),
+		rule: format!("full product of -f in {{absent, json, msgpack, toml, yaml}} x {} file names (every letter-casing of json, yaml, yml, toml{}; multi-dot names, hidden '.json', trailing dot, no extension, unknown and misleading extensions) x {} contents (each format, valid in two formats, multi-document, invalid, empty) x supply in {{regular file (mmap), FIFO, implicit stdin, '-'}} x targets, through the real binary (debug and release alternating); expected source = -f, else the (case-insensitive, last) extension, else detection; stdout and exit status must equal the library's result for that source on the same bytes (slice for regular files, reader otherwise). Plus input lists with '-' first/middle/last, '-' twice, a directory, paths below a directory with a misleading name, compared with one in-process Translator; plus multi-document streams on stdin delivered by a bursty producer in two packets split at EVERY byte offset (second packet only after xt drained the first).", names.len(), if thorough { " and msgpack" } else { " and 6 casings of msgpack" }, ncontents),
 		exhaustive: true,
 		bounds: json!({"names": names.len(), "contents": ncontents}),
 		assumptions: vec!["where the library's slice and reader results differ (C02's known classes) either is accepted and the case is tallied".into()],
